@@ -137,6 +137,46 @@ FUNCTIONS["G1Projective::endo"] = {
     "clause": "(x, y, z) -> (zeta x, y, z): the denoted affine point (x/z^2, y/z^3) maps to (zeta x/z^2, y/z^3)"}
 
 
+# ---------------------------------------------------------------- checked point decoders (Rust glue over blst)
+# Contract (C11 "checked decoders reject encodings that are non-canonical, off-curve or (where promised)
+# outside the prime-order subgroup"; C16 "points that are on the curve (and in the prime-order subgroup
+# for compressed points)"): the checked decoder returns Some(p) exactly when blst's raw decoder accepted
+# the bytes AND p is on the curve AND (compressed, and G2 uncompressed as coded) p is torsion-free.
+# blst's own decoding / on-curve / subgroup routines are opaque atoms (assumed).
+def _decoder_env(ty, unchecked_names):
+    def mk():
+        env = make_env()
+        p = Struct(ty, {"x": sp.Symbol("p_x"), "y": sp.Symbol("p_y"), "_name": "p"})
+        for n in unchecked_names:
+            env.calls[(ty, n)] = lambda en, a, p=p: Opt(p, ("atom", "blst_raw_decode_ok(bytes)"))
+        env.methods[(ty, "is_on_curve")] = lambda en, r, a: ("atom", "is_on_curve(%s)" % r.fields["_name"])
+        env.methods[(ty, "is_torsion_free")] = lambda en, r, a: ("atom", "is_torsion_free(%s)" % r.fields["_name"])
+        return env
+    return mk
+
+
+def _dec_spec(torsion):
+    def spec(loc):
+        f = b_and(("atom", "blst_raw_decode_ok(bytes)"), ("atom", "is_on_curve(p)"))
+        if torsion:
+            f = b_and(f, ("atom", "is_torsion_free(p)"))
+        return f
+    return spec
+
+
+DECODERS = {}
+for ty, file in (("G1Affine", "curves/src/bls12_381/g1.rs"), ("G2Affine", "curves/src/bls12_381/g2.rs")):
+    for fn_, unchecked, torsion in (("from_compressed", "from_compressed_unchecked", True),
+                                    ("from_uncompressed", "from_uncompressed_unchecked", ty == "G2Affine")):
+        PREDICATES["%s::%s" % (ty, fn_)] = {
+            "file": file, "item": ["impl " + ty, "fn " + fn_],
+            "inputs": lambda: {"bytes": sp.Symbol("bytes")}, "spec": _dec_spec(torsion),
+            "env": _decoder_env(ty, [unchecked]), "props": ["C11", "C16"],
+            "value": lambda v, loc: isinstance(v, Struct) and v.fields.get("_name") == "p",
+            "clause": "Some(p) <=> blst's raw decoder accepted the bytes and p is on the curve%s; p is the decoded point" % (" and torsion-free (prime-order subgroup)" if torsion else ""),
+        }
+
+
 def constants_check(read):
     text = read("curves/src/bls12_381/fp.rs")
     P = 0x1a0111ea397fe69a4b1ba7b6434bacd764774b84f38512bf6730d2a0f6b0f6241eabfffeb153ffffb9feffffffffaaab
